@@ -209,8 +209,8 @@ fn generate_global_branch(
                 cachelito_core::InvalidationRegistry::global().register_invalidation_callback(
                     #fn_name_str,
                     move |check_fn: &dyn Fn(&str) -> bool| {
-                        let mut map_write = #cache_ident.write();
                         let mut order_write = #order_ident.lock();
+                        let mut map_write = #cache_ident.write();
 
                         // Collect keys to remove based on check function
                         let keys_to_remove: Vec<String> = map_write
